@@ -480,11 +480,18 @@ func CreateNotMultipleOfError(divisor any, origin string, input any, ctx *core.P
 
 // CreateInvalidUnionError creates an invalid union error with proper context.
 func CreateInvalidUnionError(unionErrors []error, input any, ctx *core.ParseContext) error {
+	return CreateInvalidUnionErrorWithInst(unionErrors, input, ctx, nil)
+}
+
+// CreateInvalidUnionErrorWithInst creates an invalid union error that carries the
+// union schema's internals, so that the schema's own message is consulted.
+func CreateInvalidUnionErrorWithInst(unionErrors []error, input any, ctx *core.ParseContext, inst any) error {
 	raws := make([]core.ZodRawIssue, len(unionErrors))
 	for i, err := range unionErrors {
 		raws[i] = extractFirstRawIssue(err, core.Custom, input)
 	}
 	raw := CreateInvalidUnionIssue(raws, input)
+	raw.Inst = inst
 	final := FinalizeIssue(raw, ctx, nil)
 	return NewZodError([]core.ZodIssue{final})
 }
